@@ -4,6 +4,9 @@ Engine N: every (type tree, boundary value / container shape, protocol version) 
 grid is pushed through the driver, `T.from_binary(T.to_binary(v, pv), pv)`, and the result is
 compared structurally with the original (reference domain of vt.spec.values; floats by bit pattern,
 sets irrespective of order, short tuples padded with null).
+
+A second, small layer holds few but large values: the boundary sizes of every width field of the
+collection layout (vt.spec.valuegen.width_cases), see META['text'].
 """
 from vt.core import Part
 from vt.spec import values as V
@@ -21,7 +24,16 @@ META = {
             'a further nesting level over int/text based trees (thorough: over all scalars, plus a fourth level over int/text/double/blob), with the shapes empty / '
             'singleton / two elements / both orders / null at each position / one collection of all boundary values, '
             'are encoded and decoded by the driver at protocol versions 1,2,3,4,5,6,65,66; the decoded python object '
-            'is converted back and compared with the original value.',
+            'is converted back and compared with the original value. Width-field layer: for every length/count field of '
+            'the collection layout (list/set element count and element length, map entry count, key length and value '
+            'length) top-level lists, sets and maps whose field value is 32767, 32768, 65535 and 65536 (the edges of the '
+            '16-bit fields of protocol v1/v2: bit 15 clear / set, largest that fits, first that does not) are round-tripped '
+            'at all 8 versions: one element / key / value of exactly that serialized size (text with 1- and 2-byte '
+            'characters, ascii, varchar, blob; as list element and map value also tuple, list, map, UDT and vector '
+            'elements, which keep the 32-bit layout inside), alone and between ordinary elements, key and value both '
+            'boundary-sized; and collections of exactly that many elements (tinyint and 0..1-byte text list elements, '
+            'distinct smallint set members and map keys; thorough: also boolean elements and int members/keys). At v1/v2 '
+            'a width of 65536 must be refused by the encoder (an exception) or survive; it may not be written wrapped.',
     'note': 'Type classes are built with apply_parameters/make_udt_class. Documented normalisations accepted: sets '
             'come back as sortedset, maps as OrderedMap, UDTs as namedtuples, dates/times as util.Date/util.Time, '
             'timestamps as naive UTC datetimes. Values with no CQL meaning are not generated (see assumptions).',
@@ -86,6 +98,69 @@ def check_case(part, t, T, vi, v, dv, pv, form, thorough):
         part.mark_nontrivial(hash((t, vi, pv, form)))
     if vi == 4:
         part.sample({'type': tstr(t), 'value': B.short(v, 120), 'pv': pv, 'form': form, 'bytes': b[:48].hex(), 'decoded': B.short(r, 120)}, limit=2)
+
+
+def check_width_case(part, wi, t, T, v, dv, what, size, maxw, pv, thorough):
+    """One case of the width-field layer: a top-level collection whose element count or one of whose
+    element / key / value lengths is `size`.  Where the 16-bit fields of v1/v2 cannot hold the width the
+    encoder has to refuse; everywhere else the value has to come back."""
+    part.count('evaluations')
+    part.count('width_evaluations')
+    fits = pv >= 3 or maxw <= G.WIDTH16_MAX
+    case = {'layer': 'width', 'width_index': wi, 'type': t, 'pv': pv, 'thorough': thorough, 'cql_type': tstr(t),
+            'field': what, 'size': size, 'value': B.short(v, 200)}
+    where = '%s = %d, %s, pv=%d' % (what, size, tstr(t), pv)
+    try:
+        b = T.to_binary(dv, pv)
+    except Exception as e:
+        if fits:
+            part.violation('C01/width/encode-raises/%s/%s' % (t[0], type(e).__name__),
+                           'to_binary raised %r for %s (value %s)' % (e, where, B.short(v, 120)), case)
+            part.outcome((t[0], 'width', 'encode-raises'))
+        else:
+            part.count('width_refused_by_encoder')
+            part.outcome((t[0], 'width', 'does-not-fit-refused'))
+        return
+    try:
+        r = T.from_binary(b, pv)
+    except Exception as e:
+        part.violation('C01/width/decode-raises/%s/%s' % (t[0], type(e).__name__),
+                       'from_binary raised %r on the driver\'s own %d-byte encoding (starts %s) for %s%s' % (
+                           e, len(b), b[:16].hex(), where, '' if fits else '; the width does not fit 16 bits and the encoder did not refuse it'), case)
+        part.outcome((t[0], 'width', 'decode-raises'))
+        return
+    d = B.diff(t, v, B.from_driver(t, r))
+    if d is None:
+        part.outcome((t[0], 'width', 'ok' if fits else 'does-not-fit-but-survived'))
+    else:
+        tail, text = B.describe(d)
+        n = len(r) if hasattr(r, '__len__') else -1
+        part.violation('C01/width/roundtrip/%s/%s' % (t[0], what.split(',')[0].replace(' ', '-')),
+                       '%s: the value (%d top-level elements) came back with %d elements as %s: %s%s' % (
+                           where, len(v), n, B.short(r, 160), text[:300],
+                           '' if fits else '; the width does not fit 16 bits and the encoder wrote it anyway (encoding starts %s)' % b[:8].hex()), case)
+        part.outcome((t[0], 'width', 'mismatch', tail))
+    part.mark_nontrivial(hash(('width', wi, pv)))
+    if size == 32768 and pv in (2, 4):
+        part.sample({'type': tstr(t), 'field': what, 'size': size, 'pv': pv, 'encoded_bytes': len(b), 'bytes': b[:12].hex()}, limit=2)
+
+
+def run_width_chunk(args):
+    thorough, idxs, only = args
+    import logging
+    logging.disable(logging.CRITICAL)
+    part = Part()
+    cases = G.width_cases(thorough)
+    for wi in idxs:
+        t, v, what, size, maxw = cases[wi]
+        T = B.driver_type(t)
+        dv = B.to_driver(t, v)
+        part.count('width_values')
+        for pv in PVS:
+            if only is not None and pv != only['pv']:
+                continue
+            check_width_case(part, wi, t, T, v, dv, what, size, maxw, pv, thorough)
+    return part
 
 
 def _raises(st, sv, spv):
@@ -176,14 +251,30 @@ def run(ctx):
     chunks = [(thorough, types[i::n], None) for i in range(n)]
     for part in ctx.pmap(run_chunk, [c for c in chunks if c[1]]):
         ctx.merge(part)
+    nw = len(G.width_cases(thorough))         # built before the fork: the workers share the large values
+    m = max(1, min(ctx.nproc, 8))
+    widx = ctx.rotate(list(range(nw)))
+    for part in ctx.pmap(run_width_chunk, [(thorough, widx[i::m], None) for i in range(m)]):
+        ctx.merge(part)
+    ctx.cov['width_layer'] = {'sizes': list(G.WIDTH16_EDGES), 'cases': nw, 'length_cases': len(G.width_length_cases()),
+                              'count_cases': nw - len(G.width_length_cases())}
     ctx.cov['type_trees_per_level'] = [len(l) for l in levels]
     ctx.cov['protocol_versions'] = list(PVS)
     ctx.cov['rule'] = ('every type tree of the grid (levels %s) x every generated value x 8 protocol versions x every accepted '
                        'input form; non-trivial = distinct (type, value, version, form) whose encoding is at least one byte '
-                       'and whose value is not the first (ordinary) value of its type' % ([len(l) for l in levels],))
+                       'and whose value is not the first (ordinary) value of its type; plus the width-field layer: %d '
+                       'boundary-sized collections (%d length cases, %d count cases; sizes %s) x 8 protocol versions, canonical '
+                       'form, each counted as one evaluation and, when the encoder produced bytes, as one non-trivial case'
+                       % ([len(l) for l in levels], nw, len(G.width_length_cases()), nw - len(G.width_length_cases()),
+                          list(G.WIDTH16_EDGES)))
     ctx.cov['exhaustive'] = True
     ctx.assume('top-level null is a frame-level length of -1 (C03/C04), not a to_binary/from_binary case')
     ctx.assume('null elements of list/set/map cannot be expressed before protocol v3 (unsigned 16-bit lengths): not generated for v1/v2')
+    ctx.assume('a top-level list/set/map with more than 65535 elements, or with an element/key/value longer than 65535 bytes, '
+               'has no protocol v1/v2 encoding (unsigned 16-bit widths): there the encoder raising is the accepted outcome, '
+               'a silently wrapped width is not')
+    ctx.assume('the sign boundary of the 32-bit width fields (v3+ collections, tuple/UDT fields, nested collections: 2 GiB / 2^31 '
+               'elements) is out of reach of an in-memory check and is not generated; widths up to 65536 are')
     ctx.assume('values without CQL meaning are not generated: counters/durations as set elements or map keys, counters inside '
                'containers, durations with mixed signs, null vector elements, zero-dimension vectors, zero-length tuples, '
                'set members that are equal under Cassandra\'s comparator (numerically equal decimals)')
@@ -192,6 +283,11 @@ def run(ctx):
 
 
 def replay(ctx, data):
+    if data.get('layer') == 'width':
+        part = run_width_chunk((bool(data['thorough']), [data['width_index']], data))
+        for fp, what, _ in part.violations:
+            print(fp, '::', what)
+        return bool(part.violations)
     t = tuplify(data['type'])
     part = run_chunk((bool(data['thorough']), [t], data))
     for fp, what, _ in part.violations:
